@@ -2275,7 +2275,7 @@ class Transport(threading.Thread, ClosingContextManager):
                     if ptype in self._handler_table:
                         error_msg = self._ensure_authed(ptype, m)
                         if error_msg:
-                            self._send_message(error_msg)
+                            self._send_or_defer(error_msg)
                         else:
                             self._handler_table[ptype](m)
                     elif ptype in self._channel_handler_table:
@@ -3429,7 +3429,7 @@ class ServiceRequestingTransport(Transport):
         m.add_byte(cMSG_SERVICE_REQUEST)
         m.add_string("ssh-userauth")
         self._log(DEBUG, "Sending MSG_SERVICE_REQUEST: ssh-userauth")
-        self._send_message(m)
+        self._send_user_message(m)
         # Now we wait to hear back; the user is expecting a blocking-style auth
         # request so there's no point giving control back anywhere.
         while not self._service_userauth_accepted:
